@@ -107,12 +107,16 @@ def pass1 {α} (D : Dom α) (expired : Bool) : List (Upd α) → St α → St α
 def pass2 {α} (D : Dom α) (expired : Bool) : List (Upd α) → St α → St α × List (Write α) :=
   runPass (step2 D expired)
 
-/-- LeveledUpdateBatch(updaters [][]ResourceUpdater): `for i := 0..` over the levels calling
-    MergeUpdate, then `for i := len-1..0` over the levels (each level in forward order) calling update(). -/
+/-- order of the second sweep of LeveledUpdateBatch: `for i := len(updaters)-1 .. 0` over the levels and
+    `for j := len(updaters[i])-1 .. 0` inside a level (since fix 4d8d1bf; before it a level was walked forwards). -/
+def sweep2 {β : Type} (levels : List (List β)) : List β := (levels.reverse.map List.reverse).flatten
+
+/-- LeveledUpdateBatch(updaters [][]ResourceUpdater): `for i := 0..` over the levels (each level forwards) calling
+    MergeUpdate, then the levels last to first, each level last to first (`sweep2`), calling update(). -/
 def runBatch {α} (D : Dom α) (expired : Bool) (levels : List (List (Upd α))) (s : St α) :
     St α × List (Write α) :=
   let r1 := pass1 D expired levels.flatten { s with skip := [] }
-  let r2 := pass2 D expired levels.reverse.flatten r1.1
+  let r2 := pass2 D expired (sweep2 levels) r1.1
   (r2.1, r1.2 ++ r2.2)
 
 /-- a history of LeveledUpdateBatch calls (expired flag, updaters) on the same executor: the
